@@ -125,7 +125,7 @@ fn history<S: ShortGroupSignatureScheme>(em: &mut Emitter, rng: &mut Rng, suite:
             } else if r < 65 && !active.is_empty() {
                 // revoke: single or batch
                 let mut batch: Vec<usize> = vec![];
-                let k = if rng.chance(1, 3) { 1 + rng.below(3.min(active.len() as u64)) as usize } else { 1 };
+                let k = if rng.chance(1, 2) { 1 + rng.below(4.min(active.len() as u64)) as usize } else { 1 };
                 let mut pool = active.clone();
                 rng.shuffle(&mut pool);
                 batch.extend(pool.into_iter().take(k));
@@ -500,6 +500,105 @@ fn proof_deviations<S: ShortGroupSignatureScheme>(em: &mut Emitter, rng: &mut Rn
     em.count("deviation-scenarios");
 }
 
+/// every ordered batch of 2..3 identifiers out of 4 (optionally after an earlier single revocation):
+/// the issuer must refuse to refresh / re-issue each revoked identifier, whose presentations fail,
+/// while every other holder still presents
+fn batch_orders<S: ShortGroupSignatureScheme>(em: &mut Emitter, rng: &mut Rng, suite: &str) {
+    let n_claims = 3;
+    let schema = cred_schema(n_claims, &[]);
+    let n = 4usize;
+    let mut batches: Vec<Vec<usize>> = vec![];
+    for a in 0..n {
+        for b in 0..n {
+            if a != b {
+                batches.push(vec![a, b]);
+                for c in 0..n {
+                    if c != a && c != b {
+                        batches.push(vec![a, b, c]);
+                    }
+                }
+            }
+        }
+    }
+    for (bi, batch) in batches.iter().enumerate() {
+        for prior in [false, true] {
+            if !em.thorough() && ((batch.len() == 3 && bi % 3 != 0) || (prior && bi % 2 != 0)) {
+                continue;
+            }
+            let (public, mut issuer) = Issuer::<S>::new(&schema);
+            let total = if prior { n + 1 } else { n };
+            let ids: Vec<String> = (0..total).map(|i| format!("b{}-{}", bi, i)).collect();
+            let mut creds = vec![];
+            for id in &ids {
+                let age = rng.range(0, 90);
+                match call(|| issuer.sign_credential(&claim_vector(rng, n_claims, id, "N", age))) {
+                    Out::Ok(b) => creds.push(b.credential),
+                    _ => return,
+                }
+            }
+            let mut revoked: Vec<usize> = vec![];
+            if prior {
+                // an earlier revocation of the first identifier issued (reshuffles any swap-based bookkeeping)
+                if call(|| issuer.revoke_credentials(&[RevocationClaim::from(ids[n].as_str())])).is_ok() {
+                    revoked.push(n);
+                }
+                // note: the extra holder is index n, issued last
+            }
+            let before: Vec<Option<MembershipWitness>> = ids.iter().map(|id| issuer.update_revocation_handle(RevocationClaim::from(id.as_str())).ok()).collect();
+            let claims: Vec<RevocationClaim> = batch.iter().map(|i| RevocationClaim::from(ids[*i].as_str())).collect();
+            let trace = json!({"suite": suite, "issued": ids, "prior_revocation": if prior { Some(ids[n].clone()) } else { None }, "batch": batch.iter().map(|i| ids[*i].clone()).collect::<Vec<_>>()});
+            if !call(|| issuer.revoke_credentials(&claims)).is_ok() {
+                em.violation("c06:revoke-failed", format!("{}: revoking a batch of active identifiers failed", suite), trace.clone());
+                continue;
+            }
+            revoked.extend(batch.iter().cloned());
+            let value = issuer.revocation_registry.value;
+            let nonce = rng.bytes(8);
+            for i in 0..total {
+                let is_rev = revoked.contains(&i);
+                em.oracle_case(&format!("{} batch {} {} {}", suite, bi, prior, i));
+                let fresh = call(|| issuer.update_revocation_handle(RevocationClaim::from(ids[i].as_str())));
+                match (&fresh, is_rev) {
+                    (Out::Ok(w), true) => {
+                        let (sch, p) = present(&public, &creds[i], *w, value, &nonce);
+                        let accepted = matches!(&p, Out::Ok(p) if call(|| p.verify(&sch, &nonce)).is_ok());
+                        em.violation(
+                            if accepted { "c06:revoked-presents:refreshed" } else { "c06:revoked-refreshed" },
+                            format!("{}: {} was revoked in a batch, yet the issuer refreshed its handle (presentation accepted: {})", suite, ids[i], accepted),
+                            json!({"history": trace, "id": ids[i]}),
+                        );
+                    }
+                    (Out::Ok(w), false) => {
+                        if i == (bi % total) || em.thorough() {
+                            let (sch, p) = present(&public, &creds[i], *w, value, &nonce);
+                            if !matches!(&p, Out::Ok(p) if call(|| p.verify(&sch, &nonce)).is_ok()) {
+                                em.violation("c06:active-cannot-present:refreshed", format!("{}: active identifier {} is rejected with its refreshed handle", suite, ids[i]), json!({"history": trace, "id": ids[i]}));
+                            }
+                        }
+                    }
+                    (_, false) => em.violation("c06:active-refresh-failed", format!("{}: refresh of the active identifier {} failed after a batch revocation", suite, ids[i]), json!({"history": trace, "id": ids[i]})),
+                    (_, true) => {
+                        // pre-revocation handle against the new value
+                        if let Some(w) = before[i] {
+                            if i == batch[batch.len() - 1] || em.thorough() {
+                                let (sch, p) = present(&public, &creds[i], w, value, &nonce);
+                                if matches!(&p, Out::Ok(p) if call(|| p.verify(&sch, &nonce)).is_ok()) {
+                                    em.violation("c06:revoked-presents:stale", format!("{}: revoked identifier {} presents with its pre-revocation handle", suite, ids[i]), json!({"history": trace, "id": ids[i]}));
+                                }
+                            }
+                        }
+                        let age = rng.range(0, 90);
+                        if call(|| issuer.sign_credential(&claim_vector(rng, n_claims, &ids[i], "N", age))).is_ok() {
+                            em.violation("c06:revoked-reissued", format!("{}: revoked identifier {} was issued a new credential", suite, ids[i]), json!({"history": trace, "id": ids[i]}));
+                        }
+                    }
+                }
+            }
+            em.count(&format!("ordered-batch:{}{}", batch.len(), if prior { ":after-prior" } else { "" }));
+        }
+    }
+}
+
 pub fn gen_c06(em: &mut Emitter, rng: &mut Rng) {
     em.rule = "random histories of issue / blind-issue / revoke (single, batch) / refresh / re-issuance attempts / persist over one issuer and many holders, both suites; \
                after every revocation and at the end, for sampled holders every handle class (held, issuer-refreshed, public batch / multi-batch / single-step update, stale of every earlier epoch \
@@ -523,5 +622,11 @@ pub fn gen_c06(em: &mut Emitter, rng: &mut Rng) {
     if em.mine(n + 1) {
         proof_deviations::<Bbs>(em, &mut rng.sub(1001), "bbs");
         proof_deviations::<Ps>(em, &mut rng.sub(1002), "ps");
+    }
+    if em.mine(n + 2) {
+        batch_orders::<Bbs>(em, &mut rng.sub(1003), "bbs");
+    }
+    if em.mine(n + 3) {
+        batch_orders::<Ps>(em, &mut rng.sub(1004), "ps");
     }
 }
